@@ -5,6 +5,7 @@
   `env.memoOn = false` means: `memoized()` nodes (not part of the C01 class) are read as the identity; the driver
   sets it for every grammar without `memoized` nodes, so this is exactly the configuration the correspondence runs.
 -/
+import ChumskyModel.Proofs.Lemmas.ExtAll
 import ChumskyModel.Proofs.Lemmas.Top
 set_option linter.unusedSimpArgs false
 namespace Chumsky
@@ -114,6 +115,63 @@ example :
       | _ => (none, 99)) = (some (.pair (.tok 97) (.span 1 3)), 0) := by
   decide
 
+/-! ### grammars with extensions (`EEnv`: Pratt tables and nested-input parsers containing each other)
+
+  The refinement holds for the extension machine against its reading, and at every node that is not an extension reference the
+  reading obeys the same PEG laws (sequence, ordered choice, option, negative lookahead) — the sub-parsers being read by `pegE`
+  again, so that a Pratt expression or a nested parse may sit in any of these positions. -/
+
+theorem c01_extensions_refines (e : EEnv) (n : Nat) (env : Env) (m : Mode) (g : G) (st : St) (hm : env.memoOn = false) :
+    Refines m st.errs st.ctx (runE e n env m g st) (pegE e n env g st.ss st.ctx) :=
+  runE_refines e n env m g st hm
+
+theorem c01_extensions_parse (e : EEnv) (n : Nat) (env : Env) (m : Mode) (g : G) (hm : env.memoOn = false) :
+    TopRefines m (parseTopE e n env m g) (pegTopE e n env g) :=
+  parseTopE_refines e n env m g hm
+
+theorem c01_extensions_then (e : EEnv) (n : Nat) (env : Env) (a b : G) (s : SS) (ctx : Val) :
+    pegE e (n + 1) env (.then_ a b) s ctx =
+      match pegE e n env a s ctx with
+      | .ok va s1 e1 => (match pegE e n env b s1 ctx with
+          | .ok vb s2 e2 => .ok (.pair va vb) s2 (e1 ++ e2)
+          | .fail => .fail | .panic w => .panic w | .oof => .oof)
+      | .fail => .fail | .panic w => .panic w | .oof => .oof := by
+  simp only [pegE, EEnv.find, pegStep, SOut.andThen]
+  cases pegE e n env a s ctx <;> simp
+  rename_i va s1 e1
+  cases pegE e n env b s1 ctx <;> simp
+
+theorem c01_extensions_or_first (e : EEnv) (n : Nat) (env : Env) (a b : G) (s : SS) (ctx : Val) {v s' em}
+    (h : pegE e n env a s ctx = .ok v s' em) : pegE e (n + 1) env (.or_ a b) s ctx = .ok v s' em := by
+  simp [pegE, EEnv.find, pegStep, sChoice, h]
+
+theorem c01_extensions_or_second (e : EEnv) (n : Nat) (env : Env) (a b : G) (s : SS) (ctx : Val)
+    (h : pegE e n env a s ctx = .fail) : pegE e (n + 1) env (.or_ a b) s ctx = pegE e n env b s ctx := by
+  simp only [pegE, EEnv.find, pegStep, sChoice, h]
+  cases pegE e n env b s ctx <;> rfl
+
+theorem c01_extensions_or_not (e : EEnv) (n : Nat) (env : Env) (a : G) (s : SS) (ctx : Val) :
+    pegE e (n + 1) env (.orNot a) s ctx =
+      match pegE e n env a s ctx with
+      | .ok v s' em => .ok (.some v) s' em
+      | .fail => .ok .none s []
+      | .panic w => .panic w | .oof => .oof := by
+  simp only [pegE, EEnv.find, pegStep]
+  cases pegE e n env a s ctx <;> rfl
+
+theorem c01_extensions_not (e : EEnv) (n : Nat) (env : Env) (a : G) (s : SS) (ctx : Val) {v s' em}
+    (h : pegE e (n + 1) env (.not_ a) s ctx = .ok v s' em) : s' = s ∧ em = [] ∧ pegE e n env a s ctx = .fail := by
+  simp only [pegE, EEnv.find, pegStep] at h
+  cases ha : pegE e n env a s ctx <;> simp [ha] at h
+  exact ⟨h.2.1.symm, h.2.2, rfl⟩
+
+#print axioms c01_extensions_refines
+#print axioms c01_extensions_parse
+#print axioms c01_extensions_then
+#print axioms c01_extensions_or_first
+#print axioms c01_extensions_or_second
+#print axioms c01_extensions_or_not
+#print axioms c01_extensions_not
 #print axioms c01_refines
 #print axioms c01_parse
 #print axioms c01_then
